@@ -321,7 +321,21 @@ class MemoryMapping {
             throw osmium::not_found{"ftruncate"};
         }
     }
+    void unmap() {
+        if (m_addr != nullptr) {
+            ::munmap(m_addr, m_size);
+        }
+    }
 public:
+    MemoryMapping() = default;
+    // L1: m_fd is not taken over; L2: the moved-from mapping stays valid and the own mapping is not released first
+    MemoryMapping& operator=(MemoryMapping&& other) noexcept {
+        m_size = other.m_size;
+        m_offset = other.m_offset;
+        m_addr = other.m_addr;
+        return *this;
+    }
+    void close() { unmap(); }
     void resize(std::size_t new_size) {
         resize_fd(m_fd);
         m_size = new_size;
